@@ -202,7 +202,7 @@ def assignDonor (fv : FreeVar α) (major : Profile α) : Option (Profile α) →
       | none => none
 
 /-- `_parameters_to_numpy(*parameters)`: all shapes must coincide (else `ValueError`) -/
-def toArrays (fv : FreeVar α) (ps : List (Option (Arr α))) : Option (List Nat × List (List α)) :=
+def toArrays (ps : List (Option (Arr α))) : Option (List Nat × List (List α)) :=
   match ps with
   | [] => none
   | none :: _ => none
